@@ -613,6 +613,8 @@ _more("C39", "Added (C39-setport): sockaddr_setport evaluated for IPv4, IPv6 and
       "branches agree), other families are untouched, and sockaddr_getport reads it back.")
 _more("C41", "Added (C41-rtrim): evutil_rtrim_lws_ evaluated in byte memory on 16 strings (empty, white space only, inner and leading white space, other control characters): exactly the "
       "trailing SP/HT bytes go and nothing in front of the string is written.")
+_more("C46", "Changed (C46-secure): decided by evaluation — for twelve request lengths (0 to 2^20-1, around 256 and 65536) the pieces evutil_secure_rng_get_bytes hands to the generator cover "
+      "[buf, buf+n) exactly; a chunked implementation is judged by its pieces, not by its spelling.")
 _more("C04", "Added (C04-evmap): the reader/writer counts of an fd are stored only after the backend accepted the add (C05's rule, run here as well) — counts stored before a failing "
       "backend add make the next add believe the fd is registered, and the backend is never told about events this property promises to deliver.")
 _more("C35", "Added: the compression-table lookup is decided by evaluation — on every table of up to three distinct names (prefixes and suffixes of one another) and seven looked-up names the "
